@@ -476,6 +476,15 @@ universe: ids need not be unique, versions need not parse). -/
 theorem resolve_order_irrelevant (c : Resolver.Cfg) (hb : c.bothBad = .eq) : ResolveOrderIrrelevant c :=
   fun o₁ o₂ hp world dq₀ => Cmp.resolve_order_irrelevant c hb o₁ o₂ hp world dq₀
 
+/-- T `resolve_canonical_order`: the configuration the driver executes and the correspondence suite
+validates against the Go code (`order := ownNames u`, ascending) computes what EVERY map order of
+`newPkgResolver` (any permutation of the own names) computes. -/
+theorem resolve_canonical_order (u : Universe) (o : List Text) (hp : o.Perm (Resolver.ownNames u))
+    (installIfFixed : Bool) (addedOrder : List Text → List Text) (world : List Text) (dq₀ : List Nat) :
+    Resolver.resolve ⟨u, o, .eq, installIfFixed, addedOrder⟩ world dq₀ =
+      Resolver.resolve ⟨u, Resolver.ownNames u, .eq, installIfFixed, addedOrder⟩ world dq₀ :=
+  Cmp.resolve_rel ⟨rfl, hp, rfl, rfl, rfl, rfl⟩ world dq₀
+
 /-- the F08b universe: `pa` provides `virt=abc`, `pb` provides `virt=xyz` -/
 def f08bCfg (bothBad : Ordering) : Resolver.Cfg :=
   ⟨[⟨[], [], [Cmp.wA, Cmp.wB]⟩], [], bothBad, true, id⟩
